@@ -46,4 +46,5 @@ def jobs(tier, seed):
     J += mjobs.requeue_jobs(tier)
     J += mjobs.close_jobs(tier)
     J += mjobs.readanswers_jobs(tier)
+    J += mjobs.flush_jobs(tier)
     return J
